@@ -138,6 +138,21 @@ def check_case(ctx, case):
     dissim = pool.get(dspec)
     c = cases.build_continuum(cspec)
     names = sorted(cspec["ann"].keys())
+    if case.get("unused_category") and cases.dissim_labels(dspec) is None:
+        # a category the continuum declares although no unit carries it any more (its last unit was removed)
+        from pygamma_agreement.continuum import Unit
+        c.add(names[0], Segment(-999.0, -998.0), "UNUSED-CATEGORY")
+        c.remove(names[0], Unit(Segment(-999.0, -998.0), "UNUSED-CATEGORY"))
+        ctx.observe("input_variant", "declares-an-unused-category")
+    if case.get("hand_bounds"):
+        # bounds assigned by hand (public attributes): narrower than the units' extent, or much wider
+        lo = min(u[0] for us in cspec["ann"].values() for u in us)
+        hi = max(u[1] for us in cspec["ann"].values() for u in us)
+        if case["hand_bounds"] == "narrow":
+            c.bound_inf, c.bound_sup = lo + (hi - lo) * 0.1, hi - (hi - lo) * 0.1
+        else:
+            c.bound_inf, c.bound_sup = lo - 100.0, hi + 250.0
+        ctx.observe("input_variant", "hand-set-bounds:" + case["hand_bounds"])
     P = lambda name, **kw: Pure(ctx, name, continua=kw.pop("continua", [c]), dissims=kw.pop("dissims", [dissim]), **kw)
     np.random.seed(case["np_seed"])
     # ---- alignments and disorders
@@ -342,6 +357,7 @@ def gen_case(ctx, dspecs):
                                                    labels=cases.dissim_labels(comp) or cases.LABELS_SMALL)}
     return {"continuum": cspec, "dissim": dspec, "other": other, "reference": ref, "window": rng.randint(1, 4),
             "windowable": windowable, "poisoned": poisoned, "shared_component": shared,
+            "unused_category": rng.random() < 0.4, "hand_bounds": rng.choice([None, None, "narrow", "wide"]),
             "magnitude": rng.choice([0.0, 0.3, 0.7, 1.0]), "cst_annotators": rng.choice([2, 3, ["p", "q"]]),
             "extra_categories": rng.choice([None, ["extra-cat"], ["x1", "x2"]]), "np_seed": rng.randrange(2 ** 31)}
 
